@@ -173,7 +173,7 @@ class AddrRange(BaseModel):
     start: int = Field(ge=0)
     end: int = Field(ge=0)
     size: int
-    base: Optional[int] = None
+    base: Optional[int] = Field(default=None, ge=0)
     idx: Optional[int] = None
     desc: Optional[str] = None
 
